@@ -79,7 +79,8 @@ class Check:
             if kf["id"] not in [k["id"] for k in self.known_hits]:
                 self.known_hits.append(kf)
             return False
-        if len(self.violations) >= 25:
+        # one replay file per distinct key, at most 40 distinct keys written out
+        if any(v["key"] == key for v in self.violations) or len({v["key"] for v in self.violations}) >= 40:
             self.violations.append({"key": key, "what": what, "replay": None})
             return True
         os.makedirs(os.path.join(VERIF, "replays"), exist_ok=True)
